@@ -9,7 +9,8 @@ EXTENDS TraceBatch, FiniteSets
 CONSTANTS MaxId, EndT, WarmT, Prios, RelDelays, AbsTimes, BadKinds, MaxOps, Strategy,
           Bounds, MaxInits, AllowFaults, MaxCmds, Cmds
 VARIABLES rs, rep, clock, ev, pending, bound, incl, mode, seg, executed, prog, initOps,
-          ann, due, notif, nrep, premature, ncmd, op
+          ann, due, notif, nrep, premature, ncmd, op,
+          statmemo    \* digest of the final statistics of the first complete replication
 D == INSTANCE DEVS
 
 dvars == <<rs, rep, clock, ev, pending, bound, incl, mode, seg, executed, prog, initOps,
@@ -21,12 +22,13 @@ SetOf(js) == {js[i] : i \in 1..Len(js)}
 
 \* per-trace parameters travel in the first event of each trace
 P == T[1]
-TraceInit == BatchInit /\ D!Init
+TraceInit == BatchInit /\ D!Init /\ statmemo = ""
 
 Step ==
   /\ Live /\ Consume
+  /\ (Ev.a \notin {"Quiescent", "NewSimulator"} => statmemo' = statmemo)
   /\ LET e == Ev IN
-     \/ e.a = "Params" /\ UNCHANGED dvars
+     \/ e.a = "NewSimulator" /\ D!FreshSimulator /\ statmemo' = statmemo
      \/ e.a = "Initialize" /\ D!InitializeWith(OpsOf(e.ops)) /\ e.res = "ok"
      \/ e.a = "Start" /\ D!Start /\ op'.res = e.res
      \/ e.a = "RunUpTo" /\ D!RunUpTo(e.b, FALSE) /\ op'.res = e.res
@@ -45,12 +47,16 @@ Step ==
         /\ e.rs = rs /\ e.rep = rep /\ e.clock = clock
         /\ (e.pending_known = 1 => SetOf(e.pending) = pending)
         /\ e.alive = (IF rs \in {"NOT_INITIALIZED", "ENDED"} THEN 0 ELSE 1)
+        /\ IF e.stats # "" /\ rs = "ENDED" /\ ~premature
+           THEN IF statmemo = "" THEN statmemo' = e.stats
+                ELSE e.stats = statmemo /\ statmemo' = statmemo
+           ELSE statmemo' = statmemo
         /\ UNCHANGED dvars
 
-Silent == /\ Live /\ (D!SegmentEnd \/ D!StepEnd) /\ UNCHANGED <<tid, l>>
+Silent == /\ Live /\ (D!SegmentEnd \/ D!StepEnd) /\ UNCHANGED <<tid, l, statmemo>>
 
 TraceNext == Step \/ Silent
-TraceSpec == TraceInit /\ [][TraceNext]_<<tid, l, dvars>>
+TraceSpec == TraceInit /\ [][TraceNext]_<<tid, l, dvars, statmemo>>
 
 InvExactlyOnce == D!ExactlyOnce
 InvClockIsEventTime == D!ClockIsEventTime
